@@ -48,3 +48,13 @@ package json
 //@ func (*TLSCurveID).MarshalJSON
 //@   requires c != nil
 //@   modifies nothing
+
+// ---------------------------------------------------------------- rsa.go
+
+// C33: the decoder (UnmarshalJSON) accepts an encoding only if `length == 8 * len(modulus)`;
+// the encoder must therefore emit exactly that (stated where the auxiliary struct is handed to
+// encoding/json), otherwise the type's own output is rejected.
+//@ func (*RSAPublicKey).MarshalJSON
+//@   requires rp != nil && (rp.PublicKey != nil ==> rp.PublicKey.N != nil && rp.PublicKey.E != nil)
+//@   at call Marshal assert rp.PublicKey != nil ==> aux.Length == len(aux.Modulus)*8
+//@   modifies nothing
